@@ -35,9 +35,9 @@ type encProtoCase struct {
 	Fmt    string `json:"fmt"`    // p1, p2
 	Prefix []int  `json:"prefix"` // first operations; the case enumerates every continuation up to Depth
 	Depth  int    `json:"depth"`
-	Seq    []int  `json:"seq,omitempty"`  // replay: exactly this sequence
+	Seq    []int  `json:"seq,omitempty"`   // replay: exactly this sequence
 	Fault  bool   `json:"fault,omitempty"` // error-path alphabet: {Load, Compute, Write, Write with the 1st / 2nd file write torn, a:=short, a:=long}
-	Disk   bool   `json:"disk,omitempty"` // exported constructor on a real directory (else the same object on the owned in-memory filesystem)
+	Disk   bool   `json:"disk,omitempty"`  // exported constructor on a real directory (else the same object on the owned in-memory filesystem)
 }
 
 const (
